@@ -4,6 +4,7 @@ From Coq Require Import String Ascii List ZArith NArith Bool.
 From OL Require Import Sexp PyAst Unparse Config Namespace Lower Cli StrLit KSem Scope.
 From OL Require UnpackNested.
 From OL Require Parse.
+From OL Require StmtOk.
 Import ListNotations.
 Open Scope string_scope.
 
@@ -55,6 +56,12 @@ Definition run_cmd (x : sexp) : sexp :=
       | _, _, _, None, _ => bad "decode-symtab"
       | _, _, _, _, None => bad "decode-block"
       | _, _, _, _, _ => bad "decode-config"
+      end
+  | L [A "stmt-ok"; b] =>
+      (* is the program inside the hypothesis of the statement-layer theorem (StmtCore.module_output_is_one_expression)? *)
+      match block_of b with
+      | Some b' => ok (sx_bool (forallb StmtOk.stmt_ok b'))
+      | None => bad "decode-block"
       end
   | L [A "core-check"; e] =>
       match expr_of e with
